@@ -1,5 +1,86 @@
-import Gobptree.Ops
+/-
+  C01 — single-threaded use refines a key→value map, for every key type and order.
+
+  Model: lean/Gobptree/{Slice,Search,Node,Ops,Run}.lean (hand-written mirror of the
+  six tree files, tied to /repo by the differential check on every run).
+  Spec:  lean/Gobptree/Spec.lean.
+  `K`, `V`, the comparison `lt` (any strict weak order), the padding producer
+  and the order are arbitrary: one theorem covers all six tree types.
+-/
+import Gobptree.Proofs.RunOk
+
 namespace Gobptree
-theorem C01_placeholder : True := trivial
+
+variable {K V : Type} {lt : K → K → Bool} {P : Params K}
+
+/-- **C01 (order ≥ 4).** Every finite history of Insert/Update/Delete/Search on a
+    fresh tree of any even order ≥ 4: no call panics, every Search returns exactly
+    the specification's lookup, every Update callback receives exactly that lookup,
+    and the contents are the specification's map. -/
+theorem C01_refines_map (hp : ParamsOk lt P) (h4 : 4 ≤ P.order) (ops : List (Op K V)) :
+    ∃ t' : Tree K V,
+      (Tree.new P.order : Tree K V).run P ops = .ok (t', (Spec.run lt [] ops).2) ∧
+      t'.abs = (Spec.run lt [] ops).1 := by
+  obtain ⟨hinv, hnil⟩ := new_ok (lt := lt) (K := K) (V := V) P.order
+  obtain ⟨t', heq, _, _, hp'⟩ := run_ok hp ops (Tree.new P.order) rfl hinv (fun _ _ _ => h4)
+  rw [hnil] at heq hp'
+  exact ⟨t', heq, by rw [Tree.abs_eq_pairs]; exact hp'⟩
+
+/-- **C01 (order 2, partial).** The same for order 2 (any even order ≥ 2) over
+    histories WITHOUT Delete. What is missing for the full statement at order 2 is
+    the known finding KF-1 (see `C01_order2_delete_counterexample`). -/
+theorem C01_order2_partial (hp : ParamsOk lt P) (ops : List (Op K V))
+    (hnodel : ∀ op ∈ ops, op.isDelete = false) :
+    ∃ t' : Tree K V,
+      (Tree.new P.order : Tree K V).run P ops = .ok (t', (Spec.run lt [] ops).2) ∧
+      t'.abs = (Spec.run lt [] ops).1 := by
+  obtain ⟨hinv, hnil⟩ := new_ok (lt := lt) (K := K) (V := V) P.order
+  obtain ⟨t', heq, _, _, hp'⟩ := run_ok hp ops (Tree.new P.order) rfl hinv
+    (fun op hop hd => by rw [hnodel op hop] at hd; exact absurd hd (by decide))
+  rw [hnil] at heq hp'
+  exact ⟨t', heq, by rw [Tree.abs_eq_pairs]; exact hp'⟩
+
+/-- **C01, Search is read-only.** A Search step returns the tree it was given. -/
+theorem C01_search_unchanged (t t' : Tree K V) (k : K) (o : Out V)
+    (hs : t.step P (.search k) = .ok (t', o)) : t' = t := by
+  simp only [Tree.step, bind, Except.bind, pure, Except.pure] at hs
+  split at hs
+  · exact absurd hs (by simp)
+  · simp only [Except.ok.injEq, Prod.mk.injEq] at hs; exact hs.1.symm
+
+/-! ### the instance used for non-vacuity and for the order-2 witness -/
+
+def natP (o : Nat) : Params Nat := { lt := fun a b => decide (a < b), pad := fun _ => some 0, order := o }
+
+theorem natP_ok (o : Nat) (h2 : 2 ≤ o) (hev : o % 2 = 0) : ParamsOk (fun a b => decide (a < b)) (natP o) where
+  lt_eq := rfl
+  swo := {
+    irrefl := by intro a; simp
+    trans := by intro a b c h1 h2; simp at *; omega
+    cotrans := by intro a b c h1; simp at *; omega }
+  pad := by intro k; simp [natP]
+  two_le := h2
+  even := hev
+
+/-- non-vacuity: the hypotheses of `C01_refines_map` are satisfiable (Nat keys, order 4),
+    and the theorem's history really reaches multi-level trees -/
+example : ParamsOk (fun a b => decide (a < b)) (natP 4) ∧ 4 ≤ (natP 4).order := ⟨natP_ok 4 (by decide) (by decide), by decide⟩
+
+example : ∃ t : Tree Nat Nat,
+    (Tree.new 4 : Tree Nat Nat).run (natP 4) ((List.range 12).map fun i => Op.insert i i) = .ok (t, List.replicate 12 .done) ∧ t.depth = 2 := by
+  refine ⟨_, rfl, rfl⟩
+
+/-- **KF-1 witness (order 2).** At order 2 the history of the properties file
+    `I1 I2 I5 I2 D1` makes the model's Delete panic, as the implementation's does:
+    the full C01 statement is false at order 2 with deletes. -/
+theorem C01_order2_delete_counterexample :
+    (Tree.new 2 : Tree Nat Nat).run (natP 2)
+      [.insert 1 1, .insert 2 2, .insert 5 5, .insert 2 2, .delete 1] = .error .bothSiblingsEmpty := by
+  rfl
+
 end Gobptree
-#print axioms Gobptree.C01_placeholder
+
+#print axioms Gobptree.C01_refines_map
+#print axioms Gobptree.C01_order2_partial
+#print axioms Gobptree.C01_search_unchanged
+#print axioms Gobptree.C01_order2_delete_counterexample
